@@ -174,6 +174,13 @@ func (k *Kernel) epollCtl(ep *Epoll, op int, fd int, events uint32, data [8]byte
 	}
 	if e, _ := k.fault(site, target.file); e != 0 {
 		k.use(site, fd, unix.ErrnoName(e))
+		if op == unix.EPOLL_CTL_DEL {
+			// the caller did try to remove the registration: if it survives the
+			// descriptor, that is the injected failure's doing
+			if it := ep.find(fd, target.file); it != nil {
+				it.staleReported = true
+			}
+		}
 		return e
 	}
 	it := ep.find(fd, target.file)
